@@ -39,7 +39,7 @@ type Pipe struct {
 	Splits        int // reads that returned fewer bytes than available
 	Coalesced     int // reads that returned more than one write's worth
 	lastWriteEnd  []int
-	WLog          []WRec // every write: end offset and step, so that a reader can date any byte
+	WLog          []WRec      // every write: end offset and step, so that a reader can date any byte
 	OnRead        func(n int) // harness observer (called by the reading goroutine)
 	Bounds        []int       // explicit segment boundaries (stream offsets, ascending): a Read never crosses the next one
 	BufGrow       int
@@ -60,11 +60,12 @@ func (p *Pipe) WrittenAt(off int) int {
 // Conn is one end of a simulated connection. All state transitions happen in
 // the single running simulated goroutine; waiting is done at schedule points.
 type Conn struct {
-	name   string
-	In     *Pipe
-	Out    *Pipe
-	closed bool
-	failed bool // a reset cut fired: this end's writes fail too
+	SameRemote bool // RemoteAddr is the same string for every connection
+	name       string
+	In         *Pipe
+	Out        *Pipe
+	closed     bool
+	failed     bool // a reset cut fired: this end's writes fail too
 }
 
 var ErrClosed = errors.New("simconn: use of closed connection")
@@ -264,8 +265,13 @@ type addr string
 func (a addr) Network() string { return "sim" }
 func (a addr) String() string  { return string(a) }
 
-func (c *Conn) LocalAddr() net.Addr                { return addr(c.name) }
-func (c *Conn) RemoteAddr() net.Addr               { return addr(c.name + "-peer") }
+func (c *Conn) LocalAddr() net.Addr { return addr(c.name) }
+func (c *Conn) RemoteAddr() net.Addr {
+	if c.SameRemote {
+		return addr("pipe") // like both ends of net.Pipe, or every client of a unix socket: all peers look alike
+	}
+	return addr(c.name + "-peer")
+}
 func (c *Conn) SetDeadline(t time.Time) error      { return nil }
 func (c *Conn) SetReadDeadline(t time.Time) error  { return nil }
 func (c *Conn) SetWriteDeadline(t time.Time) error { return nil }
